@@ -15,6 +15,12 @@ package main
 //	    real hwmon.UpdateFanConfigFromHwMonControllers(chips, &cfg)
 //	hw.bindsensor platform=<pat> index=<n>
 //	    real internal.initializeSensors(chips) with exactly one hwmon sensor entry configured
+//	hw.bindsensors sels=<platform>:<index>;...
+//	    real internal.initializeSensors(chips) with several hwmon sensor entries configured
+//	    -> ok inputs=<p1>,<p2>,... | err at=<position of the entry the error names>
+//	hw.bindfans sels=<platform>:<index>:<rpm>:<pwm>;...
+//	    real internal.initializeFans(chips) with several hwmon fan entries configured
+//	    -> ok fans=<rpmpath>|<pwmpath>|<enablepath>,... | err at=<position of the entry the error names>
 //
 // Chip paths are taken verbatim from the spec and need not exist (all file reads of GetChips /
 // the first sensor read then fail softly), which keeps the output deterministic.
@@ -27,6 +33,7 @@ import (
 
 	"github.com/markusressel/fan2go/internal"
 	"github.com/markusressel/fan2go/internal/configuration"
+	"github.com/markusressel/fan2go/internal/fans"
 	"github.com/markusressel/fan2go/internal/hwmon"
 	"github.com/markusressel/fan2go/internal/sensors"
 	"github.com/md14454/gosensors"
@@ -35,6 +42,7 @@ import (
 
 var hwChips []*hwmon.HwMonController
 var hwSensorCounter int
+var hwFanCounter int
 
 func hwAtoi(s string) int {
 	n, err := strconv.Atoi(s)
@@ -238,6 +246,64 @@ func hwHandler(op string, a kv) string {
 			}
 		}
 		return "ok inputs=" + strings.Join(ins, ",")
+	case "hw.bindfans":
+		// several hwmon fan entries in ONE initializeFans call: sels=<platform>:<index>:<rpm>:<pwm>;...
+		// (the loop works on a copy of each entry; the first entry that cannot be bound aborts the call)
+		saved := configuration.CurrentConfig.Fans
+		defer func() { configuration.CurrentConfig.Fans = saved }()
+		var cfgs []configuration.FanConfig
+		var ids []string
+		for _, t := range strings.Split(a.str("sels", ""), ";") {
+			if t == "" {
+				continue
+			}
+			p := strings.Split(t, ":")
+			if len(p) != 4 {
+				panic("hw: bad fan selector " + t)
+			}
+			// ids are unique over the whole run: fans.RegisterFan keeps a global registry
+			hwFanCounter++
+			id := fmt.Sprintf("hwfan%d", hwFanCounter)
+			ids = append(ids, id)
+			cfgs = append(cfgs, configuration.FanConfig{ID: id,
+				HwMon: &configuration.HwMonFanConfig{Platform: p[0], Index: hwAtoi(p[1]), RpmChannel: hwAtoi(p[2]), PwmChannel: hwAtoi(p[3])}})
+		}
+		configuration.CurrentConfig.Fans = cfgs
+		// initializeFans registers a prometheus collector at its end (see hw.bindsensor)
+		savedReg := prometheus.DefaultRegisterer
+		prometheus.DefaultRegisterer = prometheus.NewRegistry()
+		defer func() { prometheus.DefaultRegisterer = savedReg }()
+		result, err := internal.VerifInitializeFans(hwChips)
+		if err != nil {
+			// the error prints the rejected entry with %+v ("&{ID:<id> ..."): report its position
+			for i, id := range ids {
+				if strings.Contains(err.Error(), "ID:"+id+" ") {
+					return fmt.Sprintf("err at=%d", i)
+				}
+			}
+			return "err at=?"
+		}
+		if len(result) != len(ids) {
+			return fmt.Sprintf("ok fans=<%d fans for %d entries>", len(result), len(ids))
+		}
+		byID := map[string]*configuration.HwMonFanConfig{}
+		for cfg, f := range result {
+			hf, isHw := f.(*fans.HwMonFan)
+			if !isHw || hf.Config.HwMon == nil || cfg.ID != hf.Config.ID {
+				return "ok fans=<not a hwmon fan>"
+			}
+			byID[cfg.ID] = hf.Config.HwMon
+		}
+		var out []string
+		for _, id := range ids {
+			h, ok := byID[id]
+			if !ok {
+				out = append(out, "<missing>")
+				continue
+			}
+			out = append(out, h.RpmInputPath+"|"+h.PwmPath+"|"+h.PwmEnablePath)
+		}
+		return "ok fans=" + strings.Join(out, ",")
 	}
 	return "bad-op"
 }
